@@ -843,9 +843,9 @@ func ruleElementwise(w *World, r *Report, fn string, pidx int) {
 	}
 	// local variables (address-taken) written inside the loop and read before being written in the same iteration are not tracked
 	if bad != "" {
-		r.add("ELEMENTWISE", fn, w.Pos(f.Pos()), Violated, bad)
+		r.Add(Obligation{Rule: "ELEMENTWISE", Key: "ELEMENTWISE / " + fn, Pos: w.Pos(f.Pos()), Status: Violated, Detail: bad, Canary: w.IsCanary(f)})
 	} else {
-		r.add("ELEMENTWISE", fn, w.Pos(f.Pos()), Discharged, fmt.Sprintf("%d loop-carried value(s): counter and accumulators only", n))
+		r.Add(Obligation{Rule: "ELEMENTWISE", Key: "ELEMENTWISE / " + fn, Pos: w.Pos(f.Pos()), Status: Discharged, Detail: fmt.Sprintf("%d loop-carried value(s): counter and accumulators only", n), Canary: w.IsCanary(f)})
 	}
 }
 
